@@ -46,4 +46,6 @@ dict(id='c04-nicv-total-variance-unsquared-mean', prop='C04', expect='C04-D8', f
  dict(id='c04-silent-snr-hoisted-means', prop='C04', kind='silent', file='scared/distinguishers/partitioned.py', old="        denominator = (sums_squared / non_zero_counters) - (sums / non_zero_counters)**2\n", new="        class_means = sums / non_zero_counters\n        denominator = (sums_squared / non_zero_counters) - class_means * class_means\n"),
  dict(id='c04-counter-pinned-to-sample-one', prop='C04', expect='C04-D11', file='scared/distinguishers/partitioned.py', old="                        if sample_idx == 0:\n", new="                        if sample_idx == 1:\n"),
  dict(id='c04-kernel2-complement-mask', prop='C04', expect='C04-D11', file='scared/distinguishers/partitioned.py', old="            tmp_bool = data == p  #", new="            tmp_bool = data != p  #"),
+ dict(id='c04-kernel1-square-of-sum-position', prop='C04', expect='C04-D12', file='scared/distinguishers/partitioned.py',
+      old="                        self_sum_square[sample_idx, data_idx, data_value] += xx\n", new="                        self_sum_square[sample_idx, data_idx, data_value] += x\n"),
 ]
